@@ -2,6 +2,7 @@ import Pike.Driver.Fresh
 import Pike.Driver.Disp
 import Pike.Driver.Key
 import Pike.Driver.Loc
+import Pike.Driver.Codec
 open Pike.Driver
 
 structure St where
@@ -10,6 +11,7 @@ structure St where
 def judgeLine (st : St) (line : String) : St × String :=
   match line.splitOn "\t" with
   | "fresh" :: rest => (st, judgeFresh rest)
+  | "codec" :: rest => (st, judgeCodec rest)
   | "loc" :: rest => (st, judgeLoc rest)
   | "key" :: rest => (st, judgeKey rest)
   | "disp" :: rest => let (d, v) := judgeDisp st.disp rest; ({ st with disp := d }, v)
